@@ -731,6 +731,10 @@ def static_cases(tier):
             yield {"mode": "mut", "base": {"lib": name}, "entry": "pb.identity", "site": 0}
     yield {"mode": "chain", "spec": SMALL_SPEC}
     if tier != "thorough":
+        # every catalogue entry once on the small fixed model, so that each rule is exercised in every run whatever the seed
+        for e in cat.ENTRIES.values():
+            if not e.id.endswith(".identity"):
+                yield {"mode": "mut", "base": {"gen": SMALL_SPEC}, "entry": e.id, "site": 1}
         return
     cap_lib, cap_gen = 10, 3
     bases = [({"lib": n}, cap_lib) for n in ALL_LIB_FRAMEWORKS if n != "malaria"] + [({"gen": SMALL_SPEC}, cap_lib)] + [({"gen": s}, cap_gen) for s in _fixed_specs(20)]
